@@ -6,7 +6,9 @@ Semantics: `evalR` of Lemmas/C34Sem.lean.  Every rule of RefineVisitor is guarde
 lemmas below use the C34 soundness theorems for exactly those guards.
 
   refine_value_partial the whole-tree statement: refine (repaired rule set) preserves the value of every
-                       Max/Min-free expression wherever the input has a real value   (Lemmas/C35Tree.lean)
+                       expression wherever the input has a real value                (Lemmas/C35Tree.lean)
+  maxRule_value, minRule_value   the Max / Min rules: dropped arguments are dominated by a kept one
+                                                                                      (Lemmas/C35Ext.lean)
   ruleOne_value        Abs / Sign / Floor / Ceiling / Conjugate / Log rules (Lemmas/C35Rules.lean)
   rulePow_value        the repaired Pow-of-Pow rule: `(x**k)**n → x**(k*n)` for positive x,
                        `→ abs(x)**(k*n)` for real x and an EVEN integer k
@@ -22,11 +24,11 @@ open SymVerif SymVerif.Queries SymVerif.Refine SymVerif.C34
 
 /-! ## refine preserves the value -/
 
-/-- **C35 for `refine`** (repaired Pow rule, expressions without Max/Min, rule nodes whose argument refine leaves
-    unchanged — otherwise the model answers `unmodelled`, not `ok`): for every statement list, every assignment
-    satisfying it and every expression with a real value, the refined expression has the same value. -/
+/-- **C35 for `refine`** (repaired Pow rule; rule nodes whose argument refine leaves unchanged — otherwise the
+    model answers `unmodelled`, not `ok`): for every statement list, every assignment satisfying it and every
+    expression with a real value, the refined expression has the same value. -/
 theorem refine_value_partial {ρ : String → ℝ} {stmts : List Expr} {A : Assumptions} {e r : Expr} {v : ℝ}
-    (hb : build stmts = .ok A) (hs : Sat ρ stmts) (hw : wf e = true) (hx : hasHead extHeads e = false)
+    (hb : build stmts = .ok A) (hs : Sat ρ stmts) (hw : wf e = true)
     (hr : refine false A e = .ok r) (hv : evalR ρ e = some v) : evalR ρ r = some v := by
   unfold refine at hr
   split at hr
@@ -34,7 +36,7 @@ theorem refine_value_partial {ρ : String → ℝ} {stmts : List Expr} {A : Assu
     cases hr
     cases ro with
     | none => exact hv
-    | some r' => exact refineF_value (build_sound hb hs) _ e r' v hw hx hro hv
+    | some r' => exact refineF_value (build_sound hb hs) _ e r' v hw hro hv
   · cases hr
 
 /-- the full statement (not asserted): all of `refine` and `simplify`, complex values included -/
@@ -77,13 +79,12 @@ example : ∃ A, build xReal = .ok A ∧ wf (.pow (.pow (.sym "x") (.int 2)) (.r
   simp [evalR, powSem]
 
 /-- the hypotheses of `refine_value_partial` on `x ∈ ℝ`, `e = 1 + (x**2)**(1/2)`: refine answers `ok`, the
-    expression is well-formed and Max/Min-free (its value at `x = -3` is shown above) -/
+    expression is well-formed (its value at `x = -3` is shown above) -/
 example : ∃ A r, build xReal = .ok A ∧
     refine false A (.add (.int 1) [(.pow (.pow (.sym "x") (.int 2)) (.rat 1 2), .int 1)]) = .ok r ∧
     wf (.add (.int 1) [(.pow (.pow (.sym "x") (.int 2)) (.rat 1 2), .int 1)]) = true ∧
-    hasHead extHeads (.add (.int 1) [(.pow (.pow (.sym "x") (.int 2)) (.rat 1 2), .int 1)]) = false ∧
     Expr.eqb r (sumRaw [.int 1, .pow (.app "Abs" [.sym "x"]) (.int 1)]) = true :=
-  ⟨_, _, rfl, rfl, by decide, by decide, by decide⟩
+  ⟨_, _, rfl, rfl, by decide, by decide⟩
 
 /-- `x < 0`: `abs(x)` is rewritten to `-x`, `sign(x)` to `-1` -/
 example : ∃ A, build [.app "StrictLessThan" [.sym "x", .int 0]] = .ok A ∧
